@@ -46,7 +46,14 @@ impl CK {
         };
         let dir = scratch_dir("ck");
         set_clock_ms(Some(BASE_MS + 1));
-        CK { s: open_store(&dir, cfg["MaxCp"].as_u64().unwrap_or(2) as usize), dir, keys, now: 1, ids: vec![], dup: false }
+        let max_cp = cfg["MaxCp"].as_u64().unwrap_or(2) as usize;
+        // variant: the in-memory backend (same operations, same expected observations; no files)
+        let s = if cfg["backend"].as_str() == Some("memory") {
+            StateStore::with_config(StateConfig { backend: StateBackend::Memory, max_checkpoints: max_cp, ..Default::default() })
+        } else {
+            open_store(&dir, max_cp)
+        };
+        CK { s, dir, keys, now: 1, ids: vec![], dup: false }
     }
     fn obs(&self, ok: bool) -> Value {
         let mut c = Map::new();
